@@ -237,6 +237,7 @@ func (d *Disk) fault(k OpKind) FaultKind {
 	}
 	if idx == d.FaultAt {
 		d.faultKindHit = k
+		d.FaultHit = &Op{Kind: k}
 		return d.FaultKind
 	}
 	if d.FaultPersistent && idx > d.FaultAt && k == d.faultKindHit {
